@@ -1,25 +1,51 @@
-(* Model of Roller.Dial (u_roller.go:57-110) as a pure function of: the
-   configured ids, the shuffled copy (any permutation; the shuffle's randomness
-   is an input), the remembered working id, whether each TCP dial succeeds, and
-   which ids the server lets complete a handshake. *)
+(* Model of Roller.Dial (u_roller.go:64-127, sameHelloID :45-62) as a pure
+   function of: the configured ids, the shuffled copy (any permutation; the
+   shuffle's randomness is an input), the remembered working id, whether each
+   TCP dial succeeds, the seeds the library generates for unseeded randomized
+   ids, the handshake timeout, and how the peer treats each fingerprint it
+   sees (serves it after some delay, refuses it after some delay, or reads the
+   ClientHello and stays silent). *)
 From UV Require Import Base.Common.
 From Coq Require Import Permutation.
 
-Definition id := N.
+(* ClientHelloID (u_common.go:140-154).  [base] stands for the triple
+   (Client, Version, Weights by value - nil counts as DefaultWeights, as in
+   sameHelloID); [rnd] says that Client is one of the three "Randomized*"
+   names; [seed] is the Seed pointer (None = nil). *)
+Record hid := mkHid { rnd : bool; base : N; seed : option N }.
 
-(* lines 67-83: move the working id to the front (swap with slot 0), or prepend it *)
-Fixpoint index_of (w : id) (l : list id) : option nat :=
+Definition oN_eqb (a b : option N) : bool :=
+  match a, b with Some x, Some y => x =? y | None, None => true | _, _ => false end.
+
+(* sameHelloID, u_roller.go:45-62 *)
+Definition hid_eqb (a b : hid) : bool :=
+  Bool.eqb (rnd a) (rnd b) && (base a =? base b) && oN_eqb (seed a) (seed b).
+
+(* A randomized id whose Seed is nil: each connection made with it draws a
+   fresh seed, i.e. shows a fresh fingerprint. *)
+Definition unseeded (x : hid) : bool :=
+  rnd x && match seed x with None => true | Some _ => false end.
+
+(* The ClientHelloID the connection ends up with (UClient stores the id,
+   u_conn.go:75; ApplyPreset -> generateRandomizedSpec fills in a generated
+   Seed when it is nil, u_parrots.go:2739-2744, 2963-2969).  It determines the
+   fingerprint on the wire.  [gen k] is the seed generated in attempt [k]. *)
+Definition conn_id (gen : nat -> N) (k : nat) (x : hid) : hid :=
+  if unseeded x then mkHid true (base x) (Some (gen k)) else x.
+
+(* lines 80-98: move the working id to the front (swap with slot 0), or prepend it *)
+Fixpoint index_of (w : hid) (l : list hid) : option nat :=
   match l with
   | [] => None
-  | x :: r => if x =? w then Some O else match index_of w r with Some i => Some (S i) | None => None end
+  | x :: r => if hid_eqb x w then Some O else match index_of w r with Some i => Some (S i) | None => None end
   end.
-Fixpoint set_nth (i : nat) (x : id) (l : list id) : list id :=
+Fixpoint set_nth (i : nat) (x : hid) (l : list hid) : list hid :=
   match l, i with
   | [], _ => []
   | _ :: t, O => x :: t
   | h :: t, S k => h :: set_nth k x t
   end.
-Definition prioritise (sh : list id) (working : option id) : list id :=
+Definition prioritise (sh : list hid) (working : option hid) : list hid :=
   match working with
   | None => sh
   | Some w =>
@@ -29,55 +55,116 @@ Definition prioritise (sh : list id) (working : option id) : list id :=
     end
   end.
 
-Inductive outcome := Connected (i : id) | TcpError (attempt : nat) | AllFailed | NoIds.
+(* What the peer does with a ClientHello of a given fingerprint; delays in
+   the same unit as the timeout. *)
+Inductive peer_beh := Serve (d : N) | Refuse (d : N) | Silent.
+Inductive hsres := HsOk | HsRejected | HsTimeout.
 
-(* lines 87-109; k = number of TCP dials made so far *)
-Fixpoint attempt_loop (order : list id) (k : nat) (tcp_ok : nat -> bool) (accepts : id -> bool)
-  : list id * outcome :=
-  match order with
-  | [] => ([], if (k =? 0)%nat then NoIds else AllFailed)
-  | x :: r =>
-    if negb (tcp_ok k) then ([], TcpError k)
-    else if accepts x then ([x], Connected x)
-    else let (tr, o) := attempt_loop r (S k) tcp_ok accepts in (x :: tr, o)
+(* lines 111-114: SetDeadline(time.Now().Add(TlsHandshakeTimeout)); Handshake().
+   Returns how the handshake ends and the time at which it ends. *)
+Definition handshake (now T : N) (b : peer_beh) : hsres * N :=
+  let deadline := now + T in
+  match b with
+  | Serve d => if now + d <? deadline then (HsOk, now + d) else (HsTimeout, deadline)
+  | Refuse d => if now + d <? deadline then (HsRejected, now + d) else (HsTimeout, deadline)
+  | Silent => (HsTimeout, deadline)
   end.
 
-Record dial_result := { attempts : list id; result : outcome; working' : option id }.
+(* the outcome of one attempt in isolation *)
+Definition hs_outcome (T : N) (b : peer_beh) : hsres :=
+  match b with
+  | Serve d => if d <? T then HsOk else HsTimeout
+  | Refuse d => if d <? T then HsRejected else HsTimeout
+  | Silent => HsTimeout
+  end.
+Definition would_succeed (T : N) (b : peer_beh) : bool :=
+  match hs_outcome T b with HsOk => true | _ => false end.
 
-Definition dial (sh : list id) (working : option id) (tcp_ok : nat -> bool) (accepts : id -> bool) : dial_result :=
-  let (tr, o) := attempt_loop (prioritise sh working) 0 tcp_ok accepts in
-  {| attempts := tr; result := o;
-     working' := match o with Connected i => Some i | _ => working end |}.
+Inductive outcome := Connected (i : hid) | TcpError (attempt : nat) | AllFailed | NoIds.
+
+Section Loop.
+  Variables (tcp_ok : nat -> bool) (gen : nat -> N) (T : N) (peer : hid -> peer_beh).
+
+  (* lines 102-126; k = number of TCP dials made so far, now = current time.
+     Result: the configured ids tried, the fingerprints sent with the way
+     their handshake ended, and how the call ends. *)
+  Fixpoint attempt_loop (order : list hid) (k : nat) (now : N)
+    : list hid * list (hid * hsres) * outcome :=
+    match order with
+    | [] => ([], [], if (k =? 0)%nat then NoIds else AllFailed)
+    | x :: r =>
+      if negb (tcp_ok k) then ([], [], TcpError k)
+      else
+        let f := conn_id gen k x in
+        match handshake now T (peer f) with
+        | (HsOk, _) => ([x], [(f, HsOk)], Connected f)          (* WorkingHelloID = &client.ClientHelloID *)
+        | (o, now') =>
+          match attempt_loop r (S k) now' with
+          | (tr, wi, res) => (x :: tr, (f, o) :: wi, res)
+          end
+        end
+    end.
+End Loop.
+
+Record dial_result := {
+  tried : list hid;              (* configured ids used, in order *)
+  wire : list (hid * hsres);     (* fingerprint of each ClientHello sent, and how that handshake ended *)
+  result : outcome;
+  working' : option hid }.
+
+Definition dial (sh : list hid) (working : option hid) (tcp_ok : nat -> bool) (gen : nat -> N)
+           (T : N) (peer : hid -> peer_beh) (now : N) : dial_result :=
+  match attempt_loop tcp_ok gen T peer (prioritise sh working) 0 now with
+  | (tr, wi, o) =>
+    {| tried := tr; wire := wi; result := o;
+       working' := match o with Connected i => Some i | _ => working end |}
+  end.
+
+(* fingerprints of a list of configured ids tried in attempts k, k+1, ... *)
+Fixpoint fps (gen : nat -> N) (k : nat) (l : list hid) : list hid :=
+  match l with [] => [] | x :: r => conn_id gen k x :: fps gen (S k) r end.
 
 (* ---- what a caller/observer can check about one Dial (decidable) ---- *)
-Fixpoint nodupb (l : list id) : bool :=
-  match l with [] => true | x :: r => negb (existsb (N.eqb x) r) && nodupb r end.
-Definition subsetb (a b : list id) : bool := forallb (fun x => existsb (N.eqb x) b) a.
+Definition memb (x : hid) (l : list hid) : bool := existsb (hid_eqb x) l.
+Fixpoint nodupb (l : list hid) : bool :=
+  match l with [] => true | x :: r => negb (memb x r) && nodupb r end.
+Definition subsetb (a b : list hid) : bool := forallb (fun x => memb x b) a.
 
 (* the ids one Dial may try: the configured ones plus the remembered working id *)
-Definition pool (ids : list id) (working : option id) : list id :=
+Definition pool (ids : list hid) (working : option hid) : list hid :=
   match working with
-  | Some w => if existsb (N.eqb w) ids then ids else w :: ids
+  | Some w => if memb w ids then ids else w :: ids
   | None => ids
   end.
 
-(* tr: ids whose ClientHello reached the server, in order; connected: the id Dial
-   returned a connection for; tcp_err: whether Dial returned a TCP dial error *)
-Definition trace_ok (ids : list id) (working : option id) (accepts : id -> bool)
-           (tr : list id) (connected : option id) (tcp_err : bool) : bool :=
-  nodupb tr && subsetb tr (pool ids working) &&
-  match working, tr with Some w, x :: _ => x =? w | _, _ => true end &&
+(* The configured id a fingerprint seen on the wire is attributed to: itself
+   when that exact id is in the pool, otherwise the unseeded randomized id of
+   the same base. *)
+Definition unseed (f : hid) : hid := if rnd f then mkHid true (base f) None else f.
+Definition attr (p : list hid) (f : hid) : hid := if memb f p then f else unseed f.
+
+(* tr: fingerprint of each ClientHello that reached the peer, in order, with what the
+   peer did with it; connected: the fingerprint (id with seed) of the connection Dial
+   returned; tcp_err: whether Dial returned a TCP dial error *)
+Definition trace_ok (ids : list hid) (working : option hid) (T : N)
+           (tr : list (hid * peer_beh)) (connected : option hid) (tcp_err : bool) : bool :=
+  let p := pool ids working in
+  let cfg := map (fun a => attr p (fst a)) tr in
+  forallb (fun a => negb (unseeded (fst a))) tr &&
+  nodupb cfg && subsetb cfg p &&
+  match working, cfg with Some w, x :: _ => hid_eqb x w | _, _ => true end &&
   match connected with
-  | Some i => (* the last attempt is the first accepted one *)
+  | Some i => (* the last attempt is the first one whose handshake succeeds *)
       negb tcp_err &&
       match rev tr with
-      | l :: before => (l =? i) && accepts i && forallb (fun x => negb (accepts x)) before
+      | l :: before => hid_eqb (fst l) i && would_succeed T (snd l) &&
+                       forallb (fun a => negb (would_succeed T (snd a))) before
       | [] => false
       end
   | None =>
-      forallb (fun x => negb (accepts x)) tr &&
-      (tcp_err || (length tr =? length (pool ids working))%nat)
+      forallb (fun a => negb (would_succeed T (snd a))) tr &&
+      (tcp_err || (length tr =? length p)%nat)
   end.
 
-Definition conn_of (o : outcome) : option id := match o with Connected i => Some i | _ => None end.
+Definition conn_of (o : outcome) : option hid := match o with Connected i => Some i | _ => None end.
 Definition is_tcp_err (o : outcome) : bool := match o with TcpError _ => true | _ => false end.
